@@ -1,4 +1,5 @@
 """C04 — page tree: order, inheritance, rotation/box normalisation, page selection, cycles."""
+import random
 import io
 import re
 from fractions import Fraction as Fr
@@ -209,6 +210,8 @@ def run_case(case):
     n = len(exp)
     classes = ["leaves:%s" % ("0" if n == 0 else "1-5" if n <= 5 else "6+")]
     nt = False
+    if case.get("spine"):
+        classes.append("deep-spine")
     if case.get("cyclic"):
         classes.append("cyclic")
         nt = True
@@ -411,10 +414,25 @@ def cases(draw):
     root = draw(tree(0, [40], cyc))
     if root["kind"] == "page":
         root = {"kind": "pages", "attrs": draw(attrs()), "kids": [root]}
+    if draw(st.integers(0, 7)) == 0:
+        # a spine: the whole tree hangs 65 - 200 single-child levels below a root that also has a page of its own
+        # (the page tree may be as deep as the producer likes; attributes are inherited through every level)
+        rnd = random.Random(draw(st.integers(0, 2 ** 32)))
+        for lvl in range(draw(st.sampled_from([65, 70, 100, 200]))):
+            a = {}
+            if rnd.random() < 0.05:
+                a["Rotate"] = {"v": 90 * rnd.randrange(-3, 4), "ind": 0}
+            root = {"kind": "pages", "attrs": a, "nulls": [], "kids": [root], "kids_ind": False}
+        shallow = {"kind": "page", "attrs": {}, "nulls": [], "pt": (Fr(1), Fr(1)), "text": "P"}
+        root = {"kind": "pages", "attrs": draw(attrs()), "nulls": [], "kids": [shallow, root] if rnd.random() < 0.5 else [root, shallow],
+                "kids_ind": False}
+        case_spine = True
+    else:
+        case_spine = False
     if draw(st.integers(0, 2)) > 0 and "MediaBox" not in root["attrs"]:
         root["attrs"]["MediaBox"] = {"v": draw(box()), "ind": draw(st.integers(0, 2))}
     _fixup(root, set(), [0], draw)
-    case = {"tree": root, "cyclic": cyc}
+    case = {"tree": root, "cyclic": cyc, "spine": case_spine}
     # glyph points must lie inside the effective MediaBox: computed with the walker
     b = Builder({"tree": root})
     leaves = b.walk()
